@@ -9,10 +9,25 @@ sys.path.insert(0, V)
 from extract import c02_templates as T
 
 DESTR = "obtain ⟨rax, rcx, rdx, rbx, rsi, rdi, r8, r9, r10, r11, r12, r13, r14, r15, flags, slots, stk⟩ := s"
-out = ["import WaVerif.Model.C02Spec", "import WaVerif.Gen.C02Templates", "import WaVerif.Lemmas.C02Tac",
+NPARTS = 6
+HEAD = ["import WaVerif.Model.C02Spec", "import WaVerif.Gen.C02Templates", "import WaVerif.Lemmas.C02Tac",
        "set_option linter.unusedSimpArgs false", "set_option linter.unusedVariables false", "set_option maxRecDepth 4000",
        "/-! One theorem per row of the regenerated x86-64 template table (statement fixed by the instruction name). -/",
        "namespace WaVerif.C02.Rows", "open WaVerif WaVerif.X64 WaVerif.C02 WaVerif.Gen.C02", ""]
+parts = [[] for _ in range(NPARTS)]
+COST = {"div_s": 6, "div_u": 4, "rem_s": 6, "rem_u": 4}
+load = [0] * NPARTS
+
+
+class Out:
+    def __init__(self):
+        self.cur = 0
+
+    def append(self, x):
+        parts[self.cur].append(x)
+
+
+out = Out()
 
 
 def plain(name, stmt, ndist):
@@ -32,8 +47,8 @@ def div_script(name, bits, signed, partial):
     m1 = (1 << bits) - 1
     L = ["  refine ⟨by decide, ?_⟩", "  intro s"]
     if partial:
-        L.append("  intro hov")
-        L.append("  simp only [lo32] at hov")
+        L.append("  intro hov0")
+        L.append("  have hov : ¬ (%s = %d#%d ∧ %s = %d#%d) := by\n    intro h; apply hov0; simpa [lo32, intMin32_lit, intMin64_lit] using h" % (x, 1 << (bits - 1), bits, y, m1, bits))
         L.append("  by_cases hd : %s = 0#%d" % (y, bits))
         L.append("  · " + branch(name, ["hd", "hov"], 4).lstrip())
         L.append("  · " + branch(name, ["hd", "hov"], 4).lstrip())
@@ -41,7 +56,7 @@ def div_script(name, bits, signed, partial):
     L.append("  by_cases hd : %s = 0#%d" % (y, bits))
     L.append("  · " + branch(name, ["hd"], 4).lstrip())
     if signed:
-        L.append("  · by_cases hov : %s = BitVec.intMin %d ∧ %s = %d#%d" % (x, bits, y, m1, bits))
+        L.append("  · by_cases hov : %s = %d#%d ∧ %s = %d#%d" % (x, 1 << (bits - 1), bits, y, m1, bits))
         L.append("    · " + branch(name, ["hd", "hov"], 6).lstrip())
         L.append("    · " + branch(name, ["hd", "hov"], 6).lstrip())
     else:
@@ -51,6 +66,8 @@ def div_script(name, bits, signed, partial):
 
 for name, ins, ptypes, rt, kind in T.ROWS:
     t, op = ins.split(".") if "." in ins else ("", ins)
+    out.cur = load.index(min(load))
+    load[out.cur] += COST.get(op, 1)
     bits = 32 if ptypes[0] == "i32" else 64
     if name in T.ILLFORMED:
         out.append("theorem %s_illformed : Illformed %s := by\n  intro s\n  %s\n  unfold %s\n  x64_simp\n" % (name, name, DESTR, name))
@@ -87,8 +104,32 @@ for name, ins, ptypes, rt, kind in T.ROWS:
         out.append(plain(name, "ExtURow %s" % name, 0))
     elif kind == "select":
         out.append(plain(name, "SelectRow%d %s %s_c" % (bits, name, name), 3).replace("unfold %s\n" % name, "unfold %s %s_c\n" % (name, name)))
-out.append("/-- hypotheses of the weakened rows are satisfiable -/")
-out.append("example : ¬ ((5#32 : BitVec 32) = BitVec.intMin 32 ∧ (3#32 : BitVec 32) = -1) := by decide")
-out.append("end WaVerif.C02.Rows")
-open(os.path.join(V, "lean/WaVerif/Props/C02.lean"), "w").write("\n".join(out) + "\n")
-print(len(T.ROWS), "rows")
+for i, p in enumerate(parts):
+    open(os.path.join(V, "lean/WaVerif/Props/C02R%d.lean" % i), "w").write("\n".join(HEAD + p + ["end WaVerif.C02.Rows"]) + "\n")
+main = ["import WaVerif.Props.C02R%d" % i for i in range(NPARTS)] + [
+    "/-! C02: the per-row theorems live in Props/C02R0..C02R%d (generated by tools/gen_c02_props.py); this module states what they add up to. -/" % (NPARTS - 1),
+    "namespace WaVerif.C02", "open WaVerif WaVerif.X64 WaVerif.C02 WaVerif.Gen.C02", "",
+    "/-- hypotheses of the weakened rem_s rows are satisfiable -/",
+    "example : ¬ (lo32 5#64 = BitVec.intMin 32 ∧ lo32 3#64 = -1) := by decide", "",
+    "/-- integer division rows: the template faults exactly when WebAssembly traps (both directions, from the Outcome form) -/",
+    "theorem div_rows_trap_iff_fault (s : State) :",
+    "    (X64.run i32_div_s.code s = none ↔ Wasm.binop .div_s (lo32 (s.slots i32_div_s.x)) (lo32 (s.slots i32_div_s.y)) = none) ∧",
+    "    (X64.run i64_div_u.code s = none ↔ Wasm.binop .div_u (s.slots i64_div_u.x) (s.slots i64_div_u.y) = none) := by",
+    "  constructor",
+    "  · have h := Rows.i32_div_s_ok.2 s",
+    "    cases hr : Wasm.binop .div_s (lo32 (s.slots i32_div_s.x)) (lo32 (s.slots i32_div_s.y)) with",
+    "    | none => simp [Outcome32, hr] at h; simp [h]",
+    "    | some r => simp [Outcome32, hr] at h; obtain ⟨s', h1, _⟩ := h; simp [h1]",
+    "  · have h := Rows.i64_div_u_ok.2 s",
+    "    cases hr : Wasm.binop .div_u (s.slots i64_div_u.x) (s.slots i64_div_u.y) with",
+    "    | none => simp [Outcome64, hr] at h; simp [h]",
+    "    | some r => simp [Outcome64, hr] at h; obtain ⟨s', h1, _⟩ := h; simp [h1]",
+    "end WaVerif.C02"]
+open(os.path.join(V, "lean/WaVerif/Props/C02.lean"), "w").write("\n".join(main) + "\n")
+names = {}
+import re
+for i, p in enumerate(parts):
+    names["WaVerif.Props.C02R%d" % i] = re.findall(r"^theorem (\w+)", "\n".join(p), re.M)
+import json
+json.dump(names, open(os.path.join(V, "extract/c02_required.json"), "w"), indent=1)
+print(len(T.ROWS), "rows", load)
